@@ -1028,26 +1028,31 @@ impl<Backing : AsRef<[u32]> + AsMut<[u32]>> DrawTarget<Backing> {
 
     /// Draws `src_rect` of `src` at `dst`. The current transform and clip are ignored
     pub fn composite_surface<F: Fn(&[u32], &mut [u32]), SrcBacking: AsRef<[u32]>>(&mut self, src: &DrawTarget<SrcBacking>, src_rect: IntRect, dst: IntPoint, f: F) {
-        let dst_rect = intrect(0, 0, self.width, self.height);
+        // `src_rect` and `dst` may lie anywhere in the i32 range, so sums and differences
+        // of them are computed in i64
 
         // `src_rect.min` lands on `dst`
-        let offset = dst - src_rect.min;
+        let offset_x = dst.x as i64 - src_rect.min.x as i64;
+        let offset_y = dst.y as i64 - src_rect.min.y as i64;
 
         // intersect the src_rect with the source size so that we don't go out of bounds
         let src_rect = src_rect.intersection_unchecked(&intrect(0, 0, src.width, src.height));
 
         // the part of the destination that receives pixels
-        let dst_rect = dst_rect.intersection_unchecked(&src_rect.translate(offset));
+        let min_x = (src_rect.min.x as i64 + offset_x).max(0);
+        let min_y = (src_rect.min.y as i64 + offset_y).max(0);
+        let max_x = (src_rect.max.x as i64 + offset_x).min(self.width as i64);
+        let max_y = (src_rect.max.y as i64 + offset_y).min(self.height as i64);
 
-        if dst_rect.is_empty() {
+        if min_x >= max_x || min_y >= max_y {
             return;
         }
 
-        let width = dst_rect.size().width as usize;
-        for y in dst_rect.min.y..dst_rect.max.y {
-            let dst_row_start = (dst_rect.min.x + y * self.width) as usize;
+        let width = (max_x - min_x) as usize;
+        for y in min_y..max_y {
+            let dst_row_start = (min_x + y * self.width as i64) as usize;
             let dst_row_end = dst_row_start + width;
-            let src_row_start = (dst_rect.min.x - offset.x + (y - offset.y) * src.width) as usize;
+            let src_row_start = (min_x - offset_x + (y - offset_y) * src.width as i64) as usize;
             let src_row_end = src_row_start + width;
             f(&src.buf.as_ref()[src_row_start..src_row_end], &mut self.buf.as_mut()[dst_row_start..dst_row_end]);
         }
